@@ -4310,12 +4310,11 @@ func (d *Document) parseNvPicPr(decoder *xml.Decoder, startElement xml.StartElem
 					return nil, err
 				}
 			case "cNvPicPr":
-				cNvPicPr := &CNvPicPr{}
-				// 解析picLocks如果存在
-				nvPicPr.CNvPicPr = cNvPicPr
-				if err := d.skipElement(decoder, t.Name.Local); err != nil {
+				cNvPicPr, err := d.parseCNvPicPr(decoder)
+				if err != nil {
 					return nil, err
 				}
+				nvPicPr.CNvPicPr = cNvPicPr
 			default:
 				if err := d.skipElement(decoder, t.Name.Local); err != nil {
 					return nil, err
@@ -4324,6 +4323,35 @@ func (d *Document) parseNvPicPr(decoder *xml.Decoder, startElement xml.StartElem
 		case xml.EndElement:
 			if t.Name.Local == "nvPicPr" {
 				return nvPicPr, nil
+			}
+		}
+	}
+}
+
+// parseCNvPicPr 解析图片的非可视图片属性（pic:cNvPicPr），包括其中的 a:picLocks
+func (d *Document) parseCNvPicPr(decoder *xml.Decoder) (*CNvPicPr, error) {
+	cNvPicPr := &CNvPicPr{}
+
+	for {
+		token, err := decoder.Token()
+		if err != nil {
+			return nil, WrapError("parse_c_nv_pic_pr", err)
+		}
+
+		switch t := token.(type) {
+		case xml.StartElement:
+			if t.Name.Local == "picLocks" {
+				cNvPicPr.PicLocks = &PicLocks{
+					NoChangeAspect:     getAttributeValue(t.Attr, "noChangeAspect"),
+					NoChangeArrowheads: getAttributeValue(t.Attr, "noChangeArrowheads"),
+				}
+			}
+			if err := d.skipElement(decoder, t.Name.Local); err != nil {
+				return nil, err
+			}
+		case xml.EndElement:
+			if t.Name.Local == "cNvPicPr" {
+				return cNvPicPr, nil
 			}
 		}
 	}
